@@ -16,6 +16,7 @@ import (
 	"fmt"
 	"os"
 	"path/filepath"
+	"reflect"
 	"strings"
 	"time"
 
@@ -317,12 +318,20 @@ func runC07(seed int64, n int) {
 // error and commits anyway, the refused call must have left nothing behind (the order in which a
 // Go map is walked must not decide which part of a refused call was written).
 func c07RefusedMany() {
-	type bad struct{}
+	for _, b := range []any{struct{}{}, int64(7), redka.Value("a value read back from the database"), []string{"x"}} {
+		c07RefusedManyWith(b)
+	}
+}
+
+func c07RefusedManyWith(badValue any) {
+	type badT = any
+	var bad = func() badT { return badValue }
+	_ = bad
 	many := func(n int, badAt int, val func(i int) any) map[string]any {
 		m := map[string]any{}
 		for i := 0; i < n; i++ {
 			if i == badAt {
-				m[fmt.Sprintf("n%02d", i)] = bad{}
+				m[fmt.Sprintf("n%02d", i)] = badValue
 			} else {
 				m[fmt.Sprintf("n%02d", i)] = val(i)
 			}
@@ -349,7 +358,7 @@ func c07RefusedMany() {
 			for i := range vals {
 				vals[i] = fmt.Sprintf("m%02d", i)
 			}
-			vals[5+t%25] = bad{}
+			vals[5+t%25] = badValue
 			_, err := tx.Set().Add("e", vals...)
 			return err
 		}},
@@ -358,21 +367,38 @@ func c07RefusedMany() {
 			for i := 0; i < 30; i++ {
 				items[fmt.Sprintf("m%02d", i)] = float64(i)
 			}
-			items[bad{}] = 1
+			if hashable(badValue) {
+				items[badValue] = 1
+			} else {
+				items[struct{}{}] = 1
+			}
 			_, err := tx.ZSet().AddMany("z", items)
 			return err
 		}},
+		{"ZSet().AddMany (new sorted set)", func(tx *redka.Tx, t int) error {
+			items := map[any]float64{}
+			for i := 0; i < 30; i++ {
+				items[fmt.Sprintf("m%02d", i)] = float64(i)
+			}
+			if hashable(badValue) {
+				items[badValue] = 1
+			} else {
+				items[struct{}{}] = 1
+			}
+			_, err := tx.ZSet().AddMany(fmt.Sprintf("znew%d", t), items)
+			return err
+		}},
 		{"ZSet().Delete", func(tx *redka.Tx, t int) error {
-			vals := []any{"a", "b", bad{}, "c"}
+			vals := []any{"a", "b", badValue, "c"}
 			_, err := tx.ZSet().Delete("z", vals...)
 			return err
 		}},
 		{"Set().Delete", func(tx *redka.Tx, t int) error {
-			_, err := tx.Set().Delete("e", "x", bad{}, "y")
+			_, err := tx.Set().Delete("e", "x", badValue, "y")
 			return err
 		}},
 		{"List().PushBack", func(tx *redka.Tx, t int) error {
-			_, err := tx.List().PushBack("l", bad{})
+			_, err := tx.List().PushBack("l", badValue)
 			return err
 		}},
 	}
@@ -398,9 +424,9 @@ func c07RefusedMany() {
 			sum.Cases++
 			count("refused_multi_element_calls")
 			if callErr == nil {
-				fail("c07-not-atomic", fmt.Sprintf("%s with a value that cannot be stored among its arguments reported success", c.name), nil)
+				fail("c07-not-atomic", fmt.Sprintf("%s with a value that cannot be stored (%T) among its arguments reported success", c.name, badValue), nil)
 			} else if txErr == nil && d1 != d0 {
-				fail("c07-not-atomic", fmt.Sprintf("%s was refused (%v) inside a transaction that then committed, yet part of it was written\n before: %s\n after : %s", c.name, callErr, d0, d1), nil)
+				fail("c07-not-atomic", fmt.Sprintf("%s with a %T among its values was refused (%v) inside a transaction that then committed, yet part of it was written\n before: %s\n after : %s", c.name, badValue, callErr, d0, d1), nil)
 			}
 			x.Close()
 		}
@@ -614,6 +640,14 @@ func c07Bodies(seed int64, n int) {
 }
 
 // c07ReadOnly: a read-only transaction or handle can never change the database.
+// hashable: the value can be the key of a Go map.
+func hashable(v any) bool {
+	defer func() { _ = recover() }()
+	m := map[any]bool{}
+	m[v] = true
+	return true
+}
+
 func c07ReadOnly(seed int64) {
 	dir, err := os.MkdirTemp("", "sysrun-ro-")
 	if err != nil {
@@ -688,6 +722,63 @@ func c07ReadOnlyPath(seed int64, path, file string) {
 			return nil
 		})
 		count("view_transactions")
+	}
+	// every repository has a View of its own (the embedded transaction wrapper): a write inside it
+	// is refused as well
+	// (the transaction types live in internal packages: the calls are made by reflection)
+	call := func(tx reflect.Value, method string, args ...any) {
+		m := tx.MethodByName(method)
+		if !m.IsValid() {
+			return
+		}
+		in := make([]reflect.Value, len(args))
+		for i, a := range args {
+			in[i] = reflect.ValueOf(a)
+		}
+		defer func() { _ = recover() }()
+		m.Call(in)
+	}
+	viewOf := func(repo any, body func(tx reflect.Value)) func() error {
+		return func() error {
+			v := reflect.ValueOf(repo).MethodByName("View")
+			if !v.IsValid() || v.Type().NumIn() != 1 {
+				return nil
+			}
+			ft := v.Type().In(0)
+			fn := reflect.MakeFunc(ft, func(a []reflect.Value) []reflect.Value {
+				body(a[0])
+				return []reflect.Value{reflect.Zero(ft.Out(0))}
+			})
+			out := v.Call([]reflect.Value{fn})
+			if e, ok := out[0].Interface().(error); ok {
+				return e
+			}
+			return nil
+		}
+	}
+	repoViews := []struct {
+		name string
+		run  func() error
+	}{
+		{"Str().View", viewOf(x.DB.Str(), func(tx reflect.Value) { call(tx, "Set", "k1", "w"); call(tx, "Set", "newkey-s", "w") })},
+		{"List().View", viewOf(x.DB.List(), func(tx reflect.Value) {
+			call(tx, "PushBack", "k2", "w")
+			call(tx, "PushBack", "newkey-l", "w")
+			call(tx, "PopFront", "k2")
+		})},
+		{"Set().View", viewOf(x.DB.Set(), func(tx reflect.Value) { call(tx, "Add", "k3", "w"); call(tx, "Add", "newkey-e", "w") })},
+		{"Hash().View", viewOf(x.DB.Hash(), func(tx reflect.Value) { call(tx, "Set", "k4", "f", "w"); call(tx, "Set", "newkey-h", "f", "w") })},
+		{"ZSet().View", viewOf(x.DB.ZSet(), func(tx reflect.Value) { call(tx, "Add", "k5", "w", 9.0); call(tx, "Add", "newkey-z", "w", 1.0) })},
+		{"Key().View", viewOf(x.DB.Key(), func(tx reflect.Value) { call(tx, "Delete", "k1", "k2"); call(tx, "Persist", "k3") })},
+	}
+	for _, rv := range repoViews {
+		_ = rv.run()
+		sum.Cases++
+		count("repository_views")
+		if dv, _ := x.DumpRaw(); dv != d0 {
+			fail("c07-readonly-wrote", fmt.Sprintf("database opened as %q: writes inside %s (a read-only transaction) changed the database\n before: %s\n after : %s", path, rv.name, d0, dv), nil)
+			break
+		}
 	}
 	d1, _ := x.DumpRaw()
 	if d1 != d0 {
